@@ -713,6 +713,10 @@ fn table() -> Vec<(&'static str, Ret, String)> {
         ("clean-question-inner-scope", Ret::OptTk, f("Tk?", "let a = { let z = mk(1); id(maybe(c, n)?) + id(z) }; let d = maybe((m == 1), a)?; Some(d)")),
         ("clean-question-in-branches", Ret::OptTk, f("Tk?", "let a = if c { let z = mk(1); same(maybe((n == 1), 1)?, z) } else { false }; let y = mk(2); let d = maybe((m == 1), 2)?; if a { Some(y) } else { Some(d) }")),
         ("clean-question-in-loop", Ret::OptTk, f("Tk?", "let i = 0; let acc = mk(0); while i < n { let e = maybe((i < m), i)?; acc = thru(e); i = i + 1; } Some(acc)")),
+        ("clean-question-in-match-arm", Ret::OptTk, f("Tk?", "match opt(t, c) { Some(y) => { let z = maybe((n == 1), 1)?; if same(y, z) { Some(mk(1)) } else { maybe((m == 1), 2)? ; None } }, None => Some(mk(id(maybe((m == 2), 3)?))) }")),
+        // several exits of the same kind whose live sets differ
+        ("clean-returns-differ", Ret::U32, f("u32", "let a = mk(1); if c { return 1; } let b = mk(2); if n == 1 { return id(a); } if n == 2 { let z = mk(3); if m == 1 { return id(z) + id(b); } } 4")),
+        ("clean-accepts-differ", Ret::Verdict, format!("{pre}filtermap main({p}) {{ let a = mk(1); if c {{ accept a }} let b = \"x\" + s; if n == 1 {{ reject b }} let z = mk(3); if m == 1 {{ accept z }} reject b }}\n")),
         // exits while other compiler-internal values are pending
         ("clean-for-return", Ret::U32, f("u32", "for e in many(n) { if id(e) == m { return 1; } } 0")),
         ("clean-match-scrutinee-return", Ret::U32, f("u32", "match E.B(s, t) { B(q, x) => { if c { return 1; } slen(q) + id(x) }, A(x) => id(x), C => 0 }")),
